@@ -375,6 +375,13 @@ func extraC13Wave2(c *Ctx, r *Report) {
 					okData = true
 				}
 			}
+			if !okData { // a single Write / WriteString of the assembled frame
+				for _, a := range cc.Args {
+					if derivesFromMarshal(a, 8) {
+						okData = true
+					}
+				}
+			}
 			if okData {
 				r.OK("C13-R6", key, in.Pos(), "event writer prints json.Marshal(payload)")
 			} else {
@@ -411,7 +418,27 @@ func derivesFromMarshal(v ssa.Value, d int) bool {
 		return len(x.Edges) > 0
 	case *ssa.Call:
 		ci := describeCall(&x.Call)
-		return ci.Name == "Marshal" && strings.HasSuffix(ci.Pkg, "json")
+		if ci.Name == "Marshal" && strings.HasSuffix(ci.Pkg, "json") {
+			return true
+		}
+		// the frame assembled in a strings.Builder / bytes.Buffer: String()/Bytes() of a local into which the
+		// marshalled payload was written
+		if (ci.Name == "String" || ci.Name == "Bytes") && (ci.Recv == "Builder" || ci.Recv == "Buffer") && len(x.Call.Args) == 1 {
+			if refs := x.Call.Args[0].Referrers(); refs != nil {
+				for _, ref := range *refs {
+					if cc := getCall(ref); cc != nil && len(cc.Args) == 2 && cc.Args[0] == x.Call.Args[0] {
+						if n := describeCall(cc).Name; (n == "Write" || n == "WriteString") && derivesFromMarshal(cc.Args[1], d-1) {
+							return true
+						}
+					}
+				}
+			}
+		}
+	case *ssa.BinOp:
+		// "event: " + name + "\ndata: " + string(json) + "\n\n"
+		if x.Op == token.ADD {
+			return derivesFromMarshal(x.X, d-1) || derivesFromMarshal(x.Y, d-1)
+		}
 	}
 	return false
 }
